@@ -1,0 +1,6 @@
+//go:build !verif
+
+package cache
+
+// verifYield is a no-op without the build tag `verif`.
+func verifYield(string) {}
